@@ -267,13 +267,14 @@ class ItemKNNScorer(Component[ItemList], Trainable):
         # slow path: neighborhoods that we need to truncate. we will convert to
         # PyTorch, make a dense matrix (this is usually small enough to be
         # usable), and use the Torch topk function.
-        slow_mat = model.T[~fast, :]
+        slow = scorable & ~fast
+        slow_mat = model.T[slow, :]
         assert isinstance(slow_mat, csr_array)
         n_slow, _ = slow_mat.shape
         if n_slow:
             # mask for the slow items.
             ti_slow_mask = ti_mask.copy()
-            ti_slow_mask[ti_mask] = ~fast
+            ti_slow_mask[ti_mask] = slow
 
             slow_mat = torch.from_numpy(slow_mat.toarray())
             slow_trimmed, slow_inds = torch.topk(slow_mat, self.config.max_nbrs)
